@@ -536,7 +536,7 @@ pub fn report(meta: &CheckMeta, out: &ShardOut, known: &Known) -> i32 {
 
 pub type ShardFn = fn(&ShardCtx, &Known) -> ShardOut;
 
-pub fn run_parent(meta: &CheckMeta, tier: Tier, nshards: usize) -> i32 {
+pub fn run_parent(meta: &CheckMeta, tier: Tier, nshards: usize, extra: bool) -> i32 {
     let t0 = Instant::now();
     let seed: u64 = std::env::var("VERIF_SEED").ok().and_then(|s| s.parse().ok()).unwrap_or(1);
     let exe = std::env::current_exe().expect("current_exe");
@@ -545,7 +545,8 @@ pub fn run_parent(meta: &CheckMeta, tier: Tier, nshards: usize) -> i32 {
     let _ = std::fs::remove_dir_all(&dir);
     std::fs::create_dir_all(&dir).expect("scratch dir");
     let mut children = Vec::new();
-    for i in 0..nshards {
+    let total = if extra && tier == Tier::Thorough { nshards + 1 } else { nshards };
+    for i in 0..total {
         let outp = dir.join(format!("shard{}.json", i));
         let sdir = dir.join(format!("s{}", i));
         std::fs::create_dir_all(&sdir).expect("shard dir");
